@@ -17,6 +17,8 @@ func init() {
 			"parallel fetches and defer groups use a plain errgroup.Group (siblings are never cancelled) that is joined on every path; a failed single-flight leader always releases its followers. " +
 			"It does not decide that unaffected data is identical nor that requests under fault are a subset of the fault-free requests (value level).",
 		Mutants: []Mutant{
+			{Name: "subscription updates render without the loader's errors", File: "v2/pkg/engine/resolve/resolve.go", Rule: "C07-R8", Key: "executeSubscriptionUpdate/hands-over-all-loader-output",
+				Old: "\t\t\tresolvable.errors = loader.errors\n", New: "\t\t\t_ = loader.errors\n"},
 			{Name: "only the first target of a de-duplicated entity is tainted (seeded change C07-12)", File: loaderGo, Rule: "C07-R7", Key: "taint-covers-merge-target:target",
 				Old: "\t\t\t\tif slices.Contains(taintedIndices, batchIndex) {\n\t\t\t\t\tl.taintedObjs.add(target)\n\t\t\t\t}\n\t\t\t}\n", New: "\t\t\t}\n\t\t\tif slices.Contains(taintedIndices, batchIndex) {\n\t\t\t\tl.taintedObjs.add(targets[0])\n\t\t\t}\n"},
 			{Name: "failed subgraph loads stay in the in-flight table (seeded change C07-13)", File: "v2/pkg/engine/resolve/subgraph_request_singleflight.go", Rule: "C07-R6", Key: "SubgraphRequestSingleFlight.Finish/removed-before-close",
@@ -439,6 +441,7 @@ func runC07(r *fw.Run) {
 	checkLoadByContextFinish(r, "C07-R6")
 	checkRemovedBeforeClose(r, "C07-R6", false)
 	c07TaintEveryMergeTarget(r)
+	c07LoaderOutputReachesRenderer(r)
 }
 
 func enclosingBlock(stack []ast.Node) *ast.BlockStmt {
@@ -621,4 +624,52 @@ func c07TaintEveryMergeTarget(r *fw.Run) {
 	}
 	walkBlock(fi.Decl.Body)
 	r.Expect("C07-R7", "merge sites in mergeResult", n, 3)
+}
+
+// c07LoaderOutputReachesRenderer (R8): the loader collects the error entries of failed fetches (and the subgraph
+// extensions and the value-completion switch); the renderer prints them. Every function that hands the output of a Loader
+// to a Resolvable hands over all of it: the sibling entry points (plain, arena, defer, defer group, subscription update)
+// assign the same set of Resolvable fields from Loader fields. An entry point that forgets `errors` renders the nulled data
+// of a failed fetch without any error.
+func c07LoaderOutputReachesRenderer(r *fw.Run) {
+	p := r.Prog
+	r.Rule("C07-R8", "every function that hands a Loader's output to a Resolvable assigns all of errors, subgraphExtensions and skipValueCompletion (the sibling entry points agree)")
+	info := p.Pkg("resolve").TypesInfo
+	required := []string{"errors", "skipValueCompletion", "subgraphExtensions"}
+	n := 0
+	for _, fi := range p.Funcs("resolve") {
+		got := map[string]bool{}
+		fw.WalkAll(fi.Decl.Body, func(nd ast.Node) bool {
+			as, ok := nd.(*ast.AssignStmt)
+			if !ok || len(as.Lhs) != len(as.Rhs) {
+				return true
+			}
+			for i, l := range as.Lhs {
+				lv, lsel := fw.Field(info, l)
+				rv, rsel := fw.Field(info, as.Rhs[i])
+				if lv == nil || rv == nil {
+					continue
+				}
+				_, lo := fw.FieldOwner(info, lsel)
+				_, ro := fw.FieldOwner(info, rsel)
+				if lo == "Resolvable" && ro == "Loader" {
+					got[lv.Name()] = true
+				}
+			}
+			return true
+		})
+		if len(got) == 0 {
+			continue
+		}
+		n++
+		var missing []string
+		for _, f := range required {
+			if !got[f] {
+				missing = append(missing, f)
+			}
+		}
+		r.Check(len(missing) == 0, "C07-R8", fi.Name()+"/hands-over-all-loader-output", fi.Pos(), fi.Name()+" hands errors, subgraphExtensions and skipValueCompletion of its loader to the renderer",
+			"the renderer of this entry point never receives the loader's "+strings.Join(missing, ", ")+": a failed fetch is rendered as nulled data without the error entry the loader recorded (resp. without the forwarded extensions / with value completion switched on although the loader asked to skip it) — only on this entry point, its siblings hand it over")
+	}
+	r.Expect("C07-R8", "functions handing loader output to a renderer", n, 5)
 }
